@@ -1458,8 +1458,23 @@ def single_use_flags(tree: ast.Module, modname: str) -> List[str]:
     return out
 
 
+_CHANGED_CACHE: Dict[int, Tuple[ast.Module, List[ast.FunctionDef]]] = {}
+
+
 def changed_functions(tree: ast.Module, modname: str) -> List[ast.FunctionDef]:
-    """functions of the module whose body differs from the pinned tree's (or that are new)"""
+    """functions of the module whose body differs from the pinned tree's (or that are new); decided once per tree, on the
+    text as written (the passes that ask only rewrite functions that are in this list already)"""
+    hit = _CHANGED_CACHE.get(id(tree))
+    if hit is not None and hit[0] is tree:
+        return hit[1]
+    res = _changed_functions(tree, modname)
+    if len(_CHANGED_CACHE) > 400:
+        _CHANGED_CACHE.clear()
+    _CHANGED_CACHE[id(tree)] = (tree, res)
+    return res
+
+
+def _changed_functions(tree: ast.Module, modname: str) -> List[ast.FunctionDef]:
     sigs = _SIGS.get(modname, {})
     present: Dict[str, ast.FunctionDef] = {}
     for st in tree.body:
